@@ -78,7 +78,7 @@ atexit.register(LEAN.close)
 class C14(Prop):
     id = "C14"
     thorough_rounds = 6   # thorough tier: this many independently seeded rounds of the random generators (duplicates dropped)
-    modules = ["H3.Props.C14"]
+    modules = ["H3.Props.C14", "H3.Lemmas.GenAgreeSend"]
     engines = ["wbuf", "out"]
     design_ref = "DESIGN.md section 7, C14; section 9, R-14"
     level_text = ("Lean theorems over models of WriteBuf (fixed header array + payload, its From conversions and Buf impl), "
